@@ -5,7 +5,7 @@ from lib import histprops as P
 
 
 def gen(rng, tier):
-    n = 150 if tier == "quick" else 8000
+    n = 1200 if tier == "quick" else 25000
     cases = []
     for i in range(n):
         c = G.gen_history(rng, "q%d" % i, profile=rng.choice(["mixed", "conflict", "mixed", "autocommit"]),
